@@ -115,15 +115,24 @@ class ObservedCompiler(Compiler):  # noqa: D101
 
                     compiled_net.add_edge(link_parent, obs_node, **source_net[parent][node].copy())
 
-        # Check that there are no stochastic nodes in the ancestors
-        for node in uses_observed:
-            # Use the observed version to query observed ancestors in the compiled_net
-            obs_node = observed_name(node)
-            for ancestor_node in nx.ancestors(compiled_net, obs_node):
-                if '_stochastic' in source_net.nodes.get(ancestor_node, {}):
-                    raise ValueError("Observed nodes must be deterministic. Observed "
-                                     "data depends on a non-deterministic node {}."
-                                     .format(ancestor_node))
+        # Check that the observed data needed for the outputs does not depend on stochastic
+        # nodes. Observed copies with given observed data will be loaded, not computed.
+        given = {observed_name(node) for node in compiled_net.graph['observed']}
+        copies = {observed_name(node): node for node in observable + uses_observed}
+        outputs = [node for node in compiled_net.graph['outputs'] if compiled_net.has_node(node)]
+        needed = nbunch_ancestors(compiled_net, outputs)
+        unchecked = [node for node in copies if node in needed and node not in given]
+        checked = set()
+        while unchecked:
+            node = unchecked.pop()
+            if node in checked or node in given:
+                continue
+            checked.add(node)
+            if '_stochastic' in source_net.nodes[copies.get(node, node)]['attr_dict']:
+                raise ValueError("Observed nodes must be deterministic. Observed "
+                                 "data depends on a non-deterministic node {}."
+                                 .format(node))
+            unchecked.extend(compiled_net.predecessors(node))
 
         return compiled_net
 
